@@ -139,3 +139,52 @@ def check_or_default(ctx, rule: str, functions: List[FunctionInfo]) -> int:
     if bad == 0:
         ctx.ob(rule, f"{len(functions)} functions: no `value or default` on data / parameters", True, "")
     return n
+
+
+def truth_tested_names(fn: ast.AST):
+    """Name nodes whose truth value is taken: test of if / while / conditional expression / assert,
+    operand of not / and / or, argument of bool()."""
+    out = []
+
+    def test(e):
+        if isinstance(e, ast.Name):
+            out.append(e)
+        elif isinstance(e, ast.BoolOp):
+            for v in e.values:
+                test(v)
+        elif isinstance(e, ast.UnaryOp) and isinstance(e.op, ast.Not):
+            test(e.operand)
+
+    for n in walk_no_nested(fn):
+        if isinstance(n, (ast.If, ast.While, ast.IfExp, ast.Assert)):
+            test(n.test)
+        elif isinstance(n, ast.BoolOp):
+            for v in n.values[:-1]:
+                test(v)
+        elif isinstance(n, ast.UnaryOp) and isinstance(n.op, ast.Not):
+            test(n.operand)
+        elif isinstance(n, ast.Call) and isinstance(n.func, ast.Name) and n.func.id == "bool" and n.args:
+            test(n.args[0])
+        elif isinstance(n, ast.comprehension):
+            for i in n.ifs:
+                test(i)
+    return out
+
+
+def check_optional_by_none(ctx, rule: str, functions: List[FunctionInfo], kinds=("str", "Any", "int", "float")) -> int:
+    """An optional scalar parameter (default None, annotated str / Any / number: a column label, a
+    value) is told apart from 'not given' with `is None` only: 0 and "" are legitimate labels."""
+    n = 0
+    for fi in functions:
+        dfl = fi.param_defaults()
+        for p, d in dfl.items():
+            if not (isinstance(d, ast.Constant) and d.value is None):
+                continue
+            ann = next((a.annotation for a in fi.node.args.posonlyargs + fi.node.args.args + fi.node.args.kwonlyargs if a.arg == p), None)
+            if ann is None or unparse(ann) not in kinds:
+                continue
+            bad = [x for x in truth_tested_names(fi.node) if x.id == p]
+            n += 1
+            ctx.ob(rule, construct(fi, f"optional `{p}` is tested with `is None`, never by truthiness"), not bad, loc(fi, bad[0] if bad else None),
+                   "" if not bad else f"`{p}` is a legitimate value when it is 0 or '' (e.g. a column label of DataFrame(array)): the truth test treats it as 'not given'")
+    return n
